@@ -57,7 +57,7 @@ def gen_case(rng):
         opts.max_rows = 6
     d = kgen.gen_dataset(rng, opts)
     inj = []
-    kinds = ['ghost_record', 'wrong_kind_record', 'ghost_traj', 'ghost_rig_member', 'rig_collision', 'orphan_feature',
+    kinds = ['ghost_record', 'wrong_kind_record', 'ghost_traj', 'ghost_rig_member', 'ghost_subrig', 'rig_collision', 'orphan_feature',
              'missing_feature', 'othercase_feature', 'linked_subdir', 'all_records_dangling', 'ghost_obs_type', 'ghost_obs_image', 'ghost_obs_other_type', 'ghost_match']
     for k in kinds:
         if (k == 'ghost_obs_other_type' and cross) or (k != 'ghost_obs_other_type' and rng.random() < 0.25):
@@ -100,6 +100,14 @@ def inject(case, root):
         elif kind == 'ghost_rig_member':
             rid = rng.choice(list(d['rigs'])) if d['rigs'] else 'rig_new'
             append_line(os.path.join(root, 'sensors', 'rigs.txt'), f'{rid}, ghost_member, 1, 0, 0, 0, 0, 0, 0')
+        elif kind == 'ghost_subrig':
+            # a NESTED rig whose sub-rig lists only undeclared sensors (and has trajectory entries of its own)
+            outer = rng.choice(list(d['rigs'])) if d['rigs'] and rng.random() < 0.5 else 'rig_outer'
+            for l in ([f'{outer}, ghost_subrig, 1, 0, 0, 0, 0, 0, 0'] if rng.random() < 0.7 else []) + \
+                     ['ghost_subrig, ghost_sensor_a, 1, 0, 0, 0, 0, 0, 0', 'ghost_subrig, ghost_sensor_b, 1, 0, 0, 0, 1, 0, 0']:
+                append_line(os.path.join(root, 'sensors', 'rigs.txt'), l)
+            if rng.random() < 0.7:
+                append_line(os.path.join(root, 'sensors', 'trajectories.txt'), f'{720 + rng.randrange(20)}, ghost_subrig, 1, 0, 0, 0, 0, 0, 0')
         elif kind == 'rig_collision':
             append_line(os.path.join(root, 'sensors', 'rigs.txt'), f'{rng.choice(list(sens))}, {rng.choice(list(sens))}, 1, 0, 0, 0, 0, 0, 0')
         elif kind == 'orphan_feature' and d['keypoints']:
@@ -318,7 +326,10 @@ def run_real(case):
         try:
             res['dir'] = dir_view(root, th)
             try:
-                res['loaded'] = loaded_view(kapture_from_dir(root, tar_handlers=th))
+                k_loaded = kapture_from_dir(root, tar_handlers=th)
+                res['loaded'] = loaded_view(k_loaded)
+                # a rig all of whose members were dropped is still a rig of the loaded dataset (an empty one)
+                res['rig_ids'] = sorted(k_loaded.rigs.keys()) if k_loaded.rigs is not None else []
                 res['error'] = None
             except Exception as e:
                 res['loaded'], res['error'] = None, type(e).__name__
@@ -389,7 +400,7 @@ def oracle(case):
         return {'signature': 'raises:' + r['error'], 'detail': f'load failed with {r["error"]} (injections {case["inject"]})'}
     L = r['loaded']
     stype = dict(L['sensors'])
-    rig_ids = {x[0] for x in (L['rigs'] or [])}
+    rig_ids = {x[0] for x in (L['rigs'] or [])} | set(r.get('rig_ids') or [])
     for part, rows in L['records'].items():
         want = kgen.SENSOR_KIND_FOR_PART[part]
         for ts, dev, _ in rows:
